@@ -188,3 +188,46 @@ s.loop("for#2", invariant=lambda v: [
                                                        z3.Select(v.results.fields["thetas"].seq.cols, z3.Int("j!vi")) ==
                                                        z3.Select(v.samples.seq.cols, z3.Int("j!vi"))))),
 ])
+
+
+# ================================================================ cli/train_model.main: the CALL of sampling.sample (REGION): the schedule and seed arguments
+# of the command line reach sampling.sample unchanged, together with the model that was given the observations and the holder sized --n-samples
+import ast as _ast5
+import z3 as _z3
+from pyvc.spec import abstract_class as _abstract_class, TAObj as _TAObj, TInt as _TInt, TBool as _TBool, contract as _contract
+from pyvc.values import AObj as _AObj
+_abstract_class("TrainCliArgs", None, {"seed": _TInt, "n_chains": _TInt, "chain_index": _TInt, "n_burnin": _TInt, "thin": _TInt, "progress": _TBool})
+
+
+def _sample_apply(i, a, node, fr):
+    if not i._cur_label.split("[")[0].endswith("@sample_call"):
+        return NotImplemented
+    i.ctx.ghost["sample_call"] = a
+    from pyvc.values import Ref as _Ref
+    return _AObj("ThetaHolderTok", i.ctx.fresh("sampled", _Ref))
+
+
+s.apply = _sample_apply
+
+tc = _contract("batchie.cli.train_model.main@sample_call", params=[("model", _TAObj("ModelTok17")), ("samples_holder", _TAObj("ThetaHolderTok")), ("args", _TAObj("TrainCliArgs"))])
+def _is_sample_call(st):
+    v = getattr(st, "value", None)
+    return isinstance(st, (_ast5.Assign, _ast5.AnnAssign)) and isinstance(v, _ast5.Call) and isinstance(v.func, _ast5.Attribute) and v.func.attr == "sample"
+
+
+tc.region = (_is_sample_call, _is_sample_call)
+
+
+def _tc_post(a, ret, st):
+    c = st.ctx.ghost.get("sample_call")
+    if c is None:
+        return [("calls_sampling_sample", _z3.BoolVal(False))]
+    from pyvc.spec import abstract_field_value, ABSTRACT_FIELDS
+    fld = lambda f: abstract_field_value("TrainCliArgs", f, ABSTRACT_FIELDS["TrainCliArgs"][f], a.args.term, st)  # noqa
+    same = lambda x, y: _z3.BoolVal(x is y or (hasattr(x, "term") and hasattr(y, "term") and x.term.eq(y.term)))  # noqa
+    return [("hands_over_the_trained_model_and_the_sized_holder", _z3.And(same(c.model, a.model), same(c.results, a.samples_holder))),
+            ("seed_and_chain_arguments_unchanged", _z3.And(c.seed == fld("seed"), c.n_chains == fld("n_chains"), c.chain_index == fld("chain_index"))),
+            ("schedule_arguments_unchanged", _z3.And(c.n_burnin == fld("n_burnin"), c.thin == fld("thin")))]
+
+
+tc.ensures("plumbing", _tc_post)
